@@ -407,13 +407,78 @@ fn token_api(cfg: &RunCfg) -> Outcome {
     Outcome { nontrivial: true, case_hash: sim_core::tape::fnv1a(format!("{size}{log:?}").as_bytes()), sample: if cfg.index < 1 { Some(json!({"size": size, "ops": log})) } else { None }, ..Default::default() }
 }
 
+/// Exhaustive: every sequence of up to `depth` operations over {async take, timed take,
+/// drop the i-th held unit (i < 4)} for pool sizes 1..=4, decoded from the run index.
+fn token_api_enum(cfg: &RunCfg) -> Outcome {
+    let depth = if cfg.tier == crate::run::Tier::Thorough { 8 } else { 6 };
+    let mut idx = cfg.index;
+    let size = 1 + (idx % 4) as usize;
+    idx /= 4;
+    let mut ts = TokenSet::new(size);
+    let mut held: Vec<Token> = Vec::new();
+    let mut log: Vec<u8> = Vec::new();
+    for _ in 0..depth {
+        let code = (idx % 6) as u8;
+        idx /= 6;
+        log.push(code);
+        let avail = size - held.len();
+        match code {
+            0 => match drive(ts.async_wait_token(), 8) {
+                Drive::Done(t, _) => {
+                    if avail == 0 {
+                        return Outcome::fail("C12.pool_model", format!("async take succeeded with no unit available (size {size}); op codes {log:?}"));
+                    }
+                    held.push(t);
+                }
+                Drive::Stalled(_) | Drive::Cap(_) => {
+                    if avail > 0 {
+                        return Outcome::fail("C12.pool_model", format!("async take blocks although {avail} of {size} units are free; op codes {log:?}"));
+                    }
+                }
+                Drive::Panicked(m) => return Outcome::fail("C12.pool_no_panic", m),
+            },
+            1 => match ts.wait_token_timeout(Duration::ZERO) {
+                Ok(t) => {
+                    if avail == 0 {
+                        return Outcome::fail("C12.pool_model", format!("timed take succeeded with no unit available (size {size}); op codes {log:?}"));
+                    }
+                    held.push(t);
+                }
+                Err(_) => {
+                    if avail > 0 {
+                        return Outcome::fail("C12.pool_model", format!("timed take timed out although {avail} of {size} units are free; op codes {log:?}"));
+                    }
+                }
+            },
+            c => {
+                let i = (c - 2) as usize;
+                if i < held.len() {
+                    drop(held.remove(i));
+                }
+            }
+        }
+    }
+    held.clear();
+    let mut got = Vec::new();
+    for _ in 0..size + 1 {
+        if let Ok(t) = ts.wait_token_timeout(Duration::ZERO) {
+            got.push(t);
+        }
+    }
+    if got.len() != size {
+        return Outcome::fail("C12.pool_model", format!("after returning every unit {} takes succeed, pool size is {size}; op codes {log:?}", got.len()));
+    }
+    Outcome { nontrivial: true, case_hash: cfg.index, sample: if cfg.index == 12345 { Some(json!({"size": size, "op_codes": log})) } else { None }, ..Default::default() }
+}
+
 pub fn spec() -> PropertySpec {
     PropertySpec {
         id: "C12",
         level: "exploration",
-        rule: "Server level: max_conns 1-4, 2-3x as many simulated clients whose connections end in every listed way (normal close, handler 4xx/5xx, handler panic, dropped by the handler, malformed request, RST / FIN mid-head, abort mid-body, abort mid-upload, abort while the response is written, connect-and-close) in tape-chosen orders and overlaps with handlers held 'running' for tape-chosen spans; accept failures injected by the simulated listener (EMFILE bursts: the connection stays in the backlog; other errors: it is gone), each followed in the real code by a 500 ms virtual sleep, in a share of the runs with a stopped global logger installed (accept failures are logged); task cancellation. Per-step invariant: connections being serviced <= max_conns and handler invocations in flight <= max_conns. Conservation by quiescence: after the history, max_conns+1 fresh connections with held handlers - exactly max_conns must reach their handler, then all are served once handlers are released. API level: TokenSet/Token sequences of depth 8-12 over {async take (cancelled when it would block), timed take, drop i-th} against a counter model. distinct = schedule hash / op sequence.",
+        rule: "Server level: max_conns 1-4, 2-3x as many simulated clients whose connections end in every listed way (normal close, handler 4xx/5xx, handler panic, dropped by the handler, malformed request, RST / FIN mid-head, abort mid-body, abort mid-upload, abort while the response is written, connect-and-close) in tape-chosen orders and overlaps with handlers held 'running' for tape-chosen spans; accept failures injected by the simulated listener (EMFILE bursts: the connection stays in the backlog; other errors: it is gone), each followed in the real code by a 500 ms virtual sleep, in a share of the runs with a stopped global logger installed (accept failures are logged); task cancellation. Per-step invariant: connections being serviced <= max_conns and handler invocations in flight <= max_conns. Conservation by quiescence: after the history, max_conns+1 fresh connections with held handlers - exactly max_conns must reach their handler, then all are served once handlers are released. API level: EVERY TokenSet/Token sequence to depth 6 (quick) / 8 (thorough) for pool sizes 1-4, plus sampled sequences of depth 8-12, over {async take (cancelled when it would block), timed take, drop i-th} against a counter model. distinct = schedule hash / op sequence.",
         scenarios: vec![
             Scenario { name: "c12.server", property: "C12", func: server_level, runs_quick: 300_000, runs_thorough: 8_000_000, doc: "server level" },
+            Scenario { name: "c12.token_api_enum", property: "C12", func: token_api_enum, runs_quick: 4 * 46_656, runs_thorough: 4 * 1_679_616, doc: "every slot-pool op sequence to depth 6 (quick) / 8 (thorough)" },
             Scenario { name: "c12.token_api", property: "C12", func: token_api, runs_quick: 300_000, runs_thorough: 5_000_000, doc: "slot pool API vs counter model" },
         ],
         required_probes: vec!["probe.accept_failure_with_stopped_logger", "probe.limit_reached", "fault.accept_emfile", "fault.accept_aborted", "probe.accept_failed_then_probe_passed", "fault.client_rst", "job.panicked", "timer.sleep_for"],
